@@ -2,7 +2,8 @@
 import itertools
 
 from .. import model as M
-from .. import gen_cells, gen_univ, gen_lat, gen_hostile, monitors, probes
+from .. import gen_cells, gen_univ, gen_lat, gen_hostile, gen_mix, monitors, \
+    probes
 from ..gen_surf import rnd, tr_card
 from ..mcnp_ref import Motion
 from ..decks import WORLD_SURF
@@ -43,6 +44,8 @@ SOURCES = {
     'c06': (gen_lat.build_rect, ['ortho-2d', 'array-own', 'cli-single',
                                  'fill-rotation', 'skew-2d', 'lat-trcl']),
     'c07': (gen_lat.build_hex, ['regular-6', 'irregular-8']),
+    'mix': (gen_mix.build, ['univ+rect', 'univ+hex', 'cells+univ', 'three',
+                            'same-part-twice']),
     'dup': (None, ['cards', 'by-transform', 'near', 'hostile-opposite',
                    'hostile-many', 'empty-filler-shared',
                    'torus-rotated-same-centre', 'helper-plane-collision',
